@@ -15,6 +15,7 @@ from harness import phonon_common as PC
 from harness import pipeline as PL
 from harness.fill_common import KEYS, key_of, V2S, s2v
 from symnum import sym as S, solver as Z, executor as X
+from symnum.npproxy import NumpyProxy, patched
 from symnum.sym import Sym, SymError, new_context, symvars, symarray
 
 SYSTEM_SETS = {
@@ -414,6 +415,54 @@ def reuse_obligation(chk, tier, rng):
         chk.harness_error("reuse: '%s' did not reproduce on the real code" % fails[0])
 
 
+def iterable_request_obligation(chk, tier, rng):
+    """The request may be any iterable of keys (the signature says Iterable[C_]): a one-shot iterator must give the same values as a list."""
+    tk, sh, ns, c_ = PL.modules()
+    ctx, duck, strain = make_problem(2, 3, 1, "sym")
+    keys = ["c11", "c12", "c44", "c15"]
+    proxy = NumpyProxy()
+    proxy.close_mode = "structural"
+    fails = []
+    try:
+        def fn():
+            with patched((tk, {"numpy": proxy}), (sh, {"numpy": proxy}), (ns, {"numpy": proxy})):
+                tl = tk.PhononContributionTaskList(duck)
+                tl.resolve(strain, iter([c_(k[1:]) for k in keys]))
+                tl.calculate()
+                return {"c%d%d" % k.v: v for k, v in tl.get_isothermal_results().items()}, {"c%d%d" % k.v: v for k, v in tl.get_adiabatic_results().items()}
+        iso, adi = X.run_single_path(fn, name="C04:iterable")
+        ref, _ = PL.run_pipeline(duck, strain, keys)
+        for got, want, which in ((iso, ref["iso"], "isothermal"), (adi, ref["adi"], "adiabatic")):
+            if set(got) != set(keys):
+                fails.append("%s values for %s instead of %s" % (which, sorted(got), keys))
+                continue
+            for k in keys:
+                if not all(a.same(b) for (_, a), (_, b) in zip(entries(got[k]), entries(want[k]))):
+                    fails.append("%s %s differs from the list request" % (which, k))
+    except SymError as e:
+        chk.inconclusive("iterable request", str(e))
+        return
+    except Exception as e:
+        fails.append("raises %s: %s" % (type(e).__name__, e))
+    chk.obligation("request given as a one-shot iterator: every requested component receives its value", "unsat" if not fails else "sat",
+                   kind="completeness", detail=fails[:3])
+    if fails:
+        d = PL.float_duck(2, 6, 2, 2, rng)
+        tl = tk.PhononContributionTaskList(d)
+        try:
+            with numpy.errstate(all="ignore"):
+                tl.resolve(numpy.array([[0.25, 0.35, 0.40], [0.22, 0.36, 0.42]]), iter([c_(k[1:]) for k in keys]))
+                tl.calculate()
+                got = tl.get_isothermal_results()
+            if len(got) != len(keys):
+                chk.violation("request:one-shot-iterable", "resolve(strain, <iterator over %s>) + calculate(): get_isothermal_results() returns %d values "
+                              "(the tasks are evaluated, the stored request is an exhausted iterator)" % (keys, len(got)), dict(keys=keys))
+            else:
+                chk.harness_error("iterable request: '%s' did not reproduce" % fails[0])
+        except Exception as e:
+            chk.violation("request:one-shot-iterable:raises", "%s: %s" % (type(e).__name__, e), dict(keys=keys))
+
+
 def tighten(cond, rt, at):
     """Rebuild an allclose condition tree |a-b| <= at' + rt'|b| with the tight tolerances (same a, b)."""
     # the tree built by npproxy._close_cond:  or( and(y>=0, |d|<=at+rt*y), and(y<0, |d|<=at-rt*y) ) per element
@@ -479,6 +528,7 @@ def main():
     completeness_and_independence(chk, tier, rng)
     merge_tolerance(chk, tier, rng)
     reuse_obligation(chk, tier, rng)
+    iterable_request_obligation(chk, tier, rng)
     chk.bound(shape="nq=2, np=3 (isotropy thorough: np=6, nv=2), nT=2 (T=0 and symbolic T)", request_sets="21 singletons, %s ordered pairs, "
               "full set in 3 orders, 9 crystal-system sets" % ("30 seeded" if tier == "quick" else "all 420"), path_budget=64)
     chk.stub("numpy.allclose in tasks.py: 'structural' cut (close iff structurally identical polynomials) for the identity obligations; "
